@@ -1664,4 +1664,924 @@ example : let s := run2 ⟨true⟩ State.init [(0, .old (.create 1500000)), (0, 
 #print axioms clamp_expiry
 #print axioms roundHalfEvenDiv4_spec
 
+/-! ## Wave 5 — the clock advances inside a request -/
+
+theorem take_sum_le (l : List Nat) (n : Nat) : (l.take n).sum ≤ l.sum := by
+  induction l generalizing n with
+  | nil => simp
+  | cons x xs ih =>
+    cases n with
+    | zero => simp
+    | succ m => simp only [List.take_succ_cons, List.sum_cons]; have := ih m; omega
+
+theorem rdOf_ge (t : Nat) (incs : List Nat) (n : Nat) : t ≤ rdOf t incs n := Nat.le_add_right _ _
+
+theorem rdOf_le (t : Nat) (incs : List Nat) (n : Nat) : rdOf t incs n ≤ t + incs.sum := by
+  unfold rdOf; have := take_sum_le incs n; omega
+
+theorem rdOf_zero (t : Nat) (incs : List Nat) : rdOf t incs 0 = t := by simp [rdOf]
+
+/-- the reads of a request never go backwards -/
+theorem rdOf_mono (t : Nat) (incs : List Nat) (a b : Nat) (h : a ≤ b) : rdOf t incs a ≤ rdOf t incs b := by
+  unfold rdOf
+  have : incs.take a = (incs.take b).take a := by rw [List.take_take, Nat.min_eq_left h]
+  rw [this]
+  have := take_sum_le (incs.take b) a
+  omega
+
+theorem stampOf_le (c : CfgR) (t : Nat) : stampOf c t ≤ t := by
+  unfold stampOf; split
+  · exact Nat.le_refl _
+  · exact Nat.div_mul_le_self t 1000000
+
+theorem stampOf_exact (c : CfgR) (h : c.stampExact = true) (t : Nat) : stampOf c t = t := by simp [stampOf, h]
+
+/-! ### one iteration of the sweep loop -/
+
+theorem mem_sweepOne (t k : Nat) (s : State) (i : Inst) :
+    i ∈ (sweepOne t k s).insts ↔ i ∈ s.insts ∧ ¬ (i.id = k ∧ i.last + i.timeout ≤ t) := by
+  simp only [sweepOne, List.mem_filter]
+  constructor
+  · rintro ⟨h1, h2⟩
+    refine ⟨h1, ?_⟩
+    rintro ⟨e, hexp⟩
+    simp [expired, e, hexp] at h2
+  · rintro ⟨h1, h2⟩
+    refine ⟨h1, ?_⟩
+    by_cases e : i.id = k
+    · have : ¬ i.last + i.timeout ≤ t := fun hh => h2 ⟨e, hh⟩
+      simp [expired, e, this]
+    · simp [e]
+
+theorem inv_sweepOne (t k : Nat) (s : State) (h : Nat) (hi : Inv s h) : Inv (sweepOne t k s) h := by
+  constructor
+  · simp only [sweepOne]
+    exact List.Nodup.sublist (List.Sublist.map _ List.filter_sublist) hi.nodup
+  · intro i hm; exact hi.bound i ((mem_sweepOne t k s i).mp hm).1
+  · intro i hm; exact hi.lastLe i ((mem_sweepOne t k s i).mp hm).1
+  · exact hi.storedBound
+
+theorem sub_sweepOne (t k : Nat) (s : State) : Sub (sweepOne t k s) s :=
+  ⟨rfl, fun j hj => ⟨j, ((mem_sweepOne t k s j).mp hj).1, rfl, rfl⟩⟩
+
+theorem sub_trans (a b c : State) (h1 : Sub a b) (h2 : Sub b c) : Sub a c := by
+  refine ⟨h1.1.trans h2.1, ?_⟩
+  intro j hj
+  obtain ⟨i, hi, e1, e2⟩ := h1.2 j hj
+  obtain ⟨i', hi', e3, e4⟩ := h2.2 i hi
+  exact ⟨i', hi', e3.trans e1, e4.trans e2⟩
+
+theorem sub_refl (s : State) : Sub s s := ⟨rfl, fun j hj => ⟨j, hj, rfl, rfl⟩⟩
+
+theorem holds_sweepOne (t k : Nat) (s : State) (k' τ l : Nat) (h : Holds s k' τ l) (ht : t < l + τ) :
+    Holds (sweepOne t k s) k' τ l := by
+  obtain ⟨i, hi, h1, h2, h3⟩ := h
+  exact ⟨i, (mem_sweepOne t k s i).mpr ⟨hi, by intro hh; omega⟩, h1, h2, h3⟩
+
+/-- whatever each iteration of the loop preserves, the loop preserves -/
+theorem sweepKeys_pres (P : State → Prop) (rd : Rd) (hP : ∀ n k s, P s → P (sweepOne (rd n) k s)) :
+    ∀ (ks : List Nat) (n : Nat) (s : State), P s → P (sweepKeys rd ks n s) := by
+  intro ks
+  induction ks with
+  | nil => intro n s h; exact h
+  | cons k ks ih => intro n s h; exact ih (n + 1) _ (hP n k s h)
+
+theorem inv_sweepR (rd : Rd) (n : Nat) (s : State) (h : Nat) (hi : Inv s h) : Inv (sweepR rd n s) h :=
+  sweepKeys_pres (fun s => Inv s h) rd (fun n k s hs => inv_sweepOne (rd n) k s h hs) _ n s hi
+
+theorem sub_sweepR (rd : Rd) (n : Nat) (s : State) : Sub (sweepR rd n s) s :=
+  sweepKeys_pres (fun s' => Sub s' s) rd (fun n k s' hs => sub_trans _ _ _ (sub_sweepOne (rd n) k s') hs) _ n s (sub_refl s)
+
+theorem holds_sweepR (rd : Rd) (n : Nat) (s : State) (k τ l : Nat) (h : Holds s k τ l) (hrd : ∀ m, rd m < l + τ) :
+    Holds (sweepR rd n s) k τ l :=
+  sweepKeys_pres (fun s => Holds s k τ l) rd (fun n k' s hs => holds_sweepOne (rd n) k' s k τ l hs (hrd n)) _ n s h
+
+theorem mem_sweepR_of (rd : Rd) (n : Nat) (s : State) (i : Inst) (hi : i ∈ s.insts) (hrd : ∀ m, rd m < i.last + i.timeout) :
+    i ∈ (sweepR rd n s).insts :=
+  sweepKeys_pres (fun s => i ∈ s.insts) rd
+    (fun n k s hs => (mem_sweepOne (rd n) k s i).mpr ⟨hs, by intro hh; have := hrd n; omega⟩) _ n s hi
+
+theorem sweepOne_ghost (t k : Nat) (s : State) :
+    (sweepOne t k s).stored = s.stored ∧ (sweepOne t k s).next = s.next ∧ (sweepOne t k s).restored = s.restored ∧
+    (sweepOne t k s).dropped = s.dropped := ⟨rfl, rfl, rfl, rfl⟩
+
+theorem sweepR_ghost (rd : Rd) (n : Nat) (s : State) :
+    (sweepR rd n s).stored = s.stored ∧ (sweepR rd n s).next = s.next ∧ (sweepR rd n s).restored = s.restored ∧
+    (sweepR rd n s).dropped = s.dropped :=
+  sweepKeys_pres (fun s' => s'.stored = s.stored ∧ s'.next = s.next ∧ s'.restored = s.restored ∧ s'.dropped = s.dropped) rd
+    (fun n k s' hs => hs) _ n s ⟨rfl, rfl, rfl, rfl⟩
+
+/-- an instance whose timeout has not elapsed at any read is not released by the loop -/
+theorem sweepOne_keeps_count (t k : Nat) (s : State) (h : Nat) (hinv : Inv s h) (k' τ l : Nat) (hh : Holds s k' τ l)
+    (ht : t < l + τ) : (sweepOne t k s).destroyed.count k' = s.destroyed.count k' := by
+  obtain ⟨i, hi, h1, h2, h3⟩ := hh
+  simp only [sweepOne, List.count_append]
+  rw [count_filter_zero]
+  · rfl
+  · intro j hj hid
+    have := eq_of_nodup_id _ hinv.nodup j i hj hi (by omega)
+    subst this
+    simp [expired]; intro _; omega
+
+theorem sweepR_keeps_count (rd : Rd) (n : Nat) (s : State) (h : Nat) (hinv : Inv s h) (k τ l : Nat) (hh : Holds s k τ l)
+    (hrd : ∀ m, rd m < l + τ) : (sweepR rd n s).destroyed.count k = s.destroyed.count k := by
+  have := sweepKeys_pres (fun s' => Inv s' h ∧ Holds s' k τ l ∧ s'.destroyed.count k = s.destroyed.count k) rd
+    (fun n k' s' hs => ⟨inv_sweepOne (rd n) k' s' h hs.1, holds_sweepOne (rd n) k' s' k τ l hs.2.1 (hrd n),
+      by rw [sweepOne_keeps_count (rd n) k' s' h hs.1 k τ l hs.2.1 (hrd n)]; exact hs.2.2⟩)
+    (s.insts.map (·.id)) n s ⟨hinv, hh, rfl⟩
+  exact this.2.2
+
+/-- once an id is absent the loop neither brings it back nor releases it again -/
+theorem sweepKeys_absent (rd : Rd) (k : Nat) : ∀ (ks : List Nat) (n : Nat) (s : State), (∀ j ∈ s.insts, j.id ≠ k) →
+    (∀ j ∈ (sweepKeys rd ks n s).insts, j.id ≠ k) ∧ (sweepKeys rd ks n s).destroyed.count k = s.destroyed.count k := by
+  intro ks
+  induction ks with
+  | nil => intro n s h; exact ⟨h, rfl⟩
+  | cons k' ks ih =>
+    intro n s h
+    have h1 : ∀ j ∈ (sweepOne (rd n) k' s).insts, j.id ≠ k := fun j hj => h j ((mem_sweepOne _ _ _ _).mp hj).1
+    have h2 : (sweepOne (rd n) k' s).destroyed.count k = s.destroyed.count k := by
+      simp only [sweepOne, List.count_append]
+      rw [count_filter_zero]
+      · rfl
+      · intro j hj hid; exact absurd hid (h j hj)
+    obtain ⟨a, b⟩ := ih (n + 1) _ h1
+    exact ⟨a, by simp only [sweepKeys]; rw [b, h2]⟩
+
+/-- an instance that is expired at every read is removed by the loop at its own key, released exactly once -/
+theorem sweepKeys_gone (rd : Rd) (h : Nat) : ∀ (ks : List Nat) (n : Nat) (s : State), Inv s h → ∀ i ∈ s.insts,
+    (∀ m, i.last + i.timeout ≤ rd m) → i.id ∈ ks →
+    (∀ j ∈ (sweepKeys rd ks n s).insts, j.id ≠ i.id) ∧
+    (sweepKeys rd ks n s).destroyed.count i.id = s.destroyed.count i.id + 1 := by
+  intro ks
+  induction ks with
+  | nil => intro n s _ i _ _ hk; cases hk
+  | cons k ks ih =>
+    intro n s hinv i hi hexp hk
+    simp only [sweepKeys]
+    by_cases e : k = i.id
+    · -- removed here
+      have hgone : ∀ j ∈ (sweepOne (rd n) k s).insts, j.id ≠ i.id := by
+        intro j hj hid
+        have hm := (mem_sweepOne _ _ _ _).mp hj
+        have := eq_of_nodup_id _ hinv.nodup j i hm.1 hi hid
+        subst this
+        exact hm.2 ⟨e.symm, hexp n⟩
+      have hcnt : (sweepOne (rd n) k s).destroyed.count i.id = s.destroyed.count i.id + 1 := by
+        simp only [sweepOne, List.count_append]
+        rw [count_filter_one _ _ hinv.nodup i hi (by simp [expired, e, hexp n])]
+      obtain ⟨a, b⟩ := sweepKeys_absent rd i.id ks (n + 1) _ hgone
+      exact ⟨a, by rw [b, hcnt]⟩
+    · have hi' : i ∈ (sweepOne (rd n) k s).insts :=
+        (mem_sweepOne _ _ _ _).mpr ⟨hi, fun hh => e hh.1.symm⟩
+      have hcnt : (sweepOne (rd n) k s).destroyed.count i.id = s.destroyed.count i.id := by
+        simp only [sweepOne, List.count_append]
+        rw [count_filter_zero]
+        · rfl
+        · intro j _ hid; simp [hid]; intro e'; exact absurd e'.symm e
+      have hk' : i.id ∈ ks := by
+        rcases List.mem_cons.mp hk with h1 | h1
+        · exact absurd h1.symm e
+        · exact h1
+      obtain ⟨a, b⟩ := ih (n + 1) _ (inv_sweepOne (rd n) k s h hinv) i hi' hexp hk'
+      exact ⟨a, by rw [b, hcnt]⟩
+
+theorem sweepR_gone (rd : Rd) (n : Nat) (s : State) (h : Nat) (hinv : Inv s h) (i : Inst) (hi : i ∈ s.insts)
+    (hexp : ∀ m, i.last + i.timeout ≤ rd m) :
+    (∀ j ∈ (sweepR rd n s).insts, j.id ≠ i.id) ∧ (sweepR rd n s).destroyed.count i.id = s.destroyed.count i.id + 1 :=
+  sweepKeys_gone rd h _ n s hinv i hi hexp (List.mem_map.mpr ⟨i, hi, rfl⟩)
+
+/-! ### the invariant over requests with an advancing clock -/
+
+theorem inv_touch_le (s : State) (h v k : Nat) (hi : Inv s h) (hv : v ≤ h) : Inv (touch v k s) h := by
+  constructor
+  · simp only [touch, map_touch_ids]; exact hi.nodup
+  · intro i hm
+    simp only [touch] at hm
+    obtain ⟨j, hj, rfl⟩ := List.mem_map.mp hm
+    rw [touchInst_id]; exact hi.bound j hj
+  · intro i hm
+    simp only [touch] at hm
+    obtain ⟨j, hj, rfl⟩ := List.mem_map.mp hm
+    unfold touchInst; split
+    · exact hv
+    · exact hi.lastLe j hj
+  · exact hi.storedBound
+
+theorem inv_loadOne_le (v h : Nat) (s : State) (kτ : Nat × Nat) (hi : Inv s h) (hv : v ≤ h) (hk : kτ.1 < s.next) :
+    Inv (loadOne v s kτ) h := by
+  unfold loadOne
+  split
+  · constructor
+    · have : ∀ n : Inst, (s.insts.map (replaceInst n)).map (·.id) = s.insts.map (·.id) := by
+        intro n; simp [List.map_map, Function.comp_def, replaceInst_id]
+      simp only [this]; exact hi.nodup
+    · intro i hm
+      obtain ⟨j, hj, rfl⟩ := List.mem_map.mp hm
+      rw [replaceInst_id]; exact hi.bound j hj
+    · intro i hm
+      obtain ⟨j, hj, rfl⟩ := List.mem_map.mp hm
+      unfold replaceInst; split
+      · exact hv
+      · exact hi.lastLe j hj
+    · exact hi.storedBound
+  · rename_i hn
+    have hn' := (hasId_false_iff s kτ.1).mp (by simpa using hn)
+    constructor
+    · simp only [List.map_append, List.map_cons, List.map_nil]
+      rw [List.nodup_append]
+      refine ⟨hi.nodup, by simp, ?_⟩
+      intro a ha b hb
+      simp at hb; subst hb
+      obtain ⟨i, hm, rfl⟩ := List.mem_map.mp ha
+      exact hn' i hm
+    · intro i hm
+      simp only [List.mem_append, List.mem_singleton] at hm
+      rcases hm with hm | rfl
+      · exact hi.bound i hm
+      · exact hk
+    · intro i hm
+      simp only [List.mem_append, List.mem_singleton] at hm
+      rcases hm with hm | rfl
+      · exact hi.lastLe i hm
+      · exact hv
+    · exact hi.storedBound
+
+/-- what the fold of `loadOne` with per-entry reads preserves -/
+theorem loadKeys_fold (rd : Rd) (h : Nat) (hrd : ∀ m, rd m ≤ h) (l : List (Nat × Nat)) :
+    ∀ (n : Nat) (s : State) (nx : Nat) (st : List (Nat × Nat)),
+    s.next = nx → s.stored = st → (∀ kτ ∈ l, kτ.1 < nx ∧ lookupStored st kτ.1 = some kτ.2) → Inv s h → Cons s →
+    Inv (loadKeys rd l n s) h ∧ Cons (loadKeys rd l n s) ∧ (loadKeys rd l n s).destroyed = s.destroyed := by
+  induction l with
+  | nil => intro n s nx st _ _ _ hi hc; exact ⟨hi, hc, rfl⟩
+  | cons x rest ih =>
+    intro n s nx st hn hst hall hi hc
+    have hx := hall x (by simp)
+    simp only [loadKeys]
+    obtain ⟨a1, a2, a3⟩ := ih (n + 1) (loadOne (rd n) s x) nx st (by rw [loadOne_next]; exact hn)
+      (by rw [loadOne_stored]; exact hst) (fun kτ hm => hall kτ (by simp [hm]))
+      (inv_loadOne_le (rd n) h s x hi (hrd n) (by rw [hn]; exact hx.1)) (cons_loadOne (rd n) s x hc (by rw [hst]; exact hx.2))
+    exact ⟨a1, a2, by rw [a3, loadOne_destroyed]⟩
+
+theorem holds_loadKeys (rd : Rd) (k τ l : Nat) (hl : ∀ m, l ≤ rd m) (lst : List (Nat × Nat)) :
+    ∀ (n : Nat) (s : State), (∀ kτ ∈ lst, kτ.1 = k → kτ.2 = τ) → Holds s k τ l → Holds (loadKeys rd lst n s) k τ l := by
+  induction lst with
+  | nil => intro n s _ h; exact h
+  | cons x rest ih =>
+    intro n s hall h
+    simp only [loadKeys]
+    exact ih (n + 1) _ (fun kτ hm => hall kτ (by simp [hm])) (holds_loadOne (rd n) s x k τ l h (hl n) (hall x (by simp)))
+
+theorem cons_touch_sweepR (rd : Rd) (n v j : Nat) (s : State) (hc : Cons s) : Cons (sweepR rd n (touch v j s)) :=
+  cons_of_sub _ _ (sub_sweepR rd n _) (cons_of_sub _ _ (sub_touch v j s) hc)
+
+/-- `Inv2` is kept by every request whose reads lie in `[t, t + incs.sum]` -/
+theorem inv2_stepR (c : CfgR) (s : State) (t0 t : Nat) (incs : List Nat) (ev : Ev2) (h : Inv2 s t0) (ht : t0 ≤ t) :
+    Inv2 (stepR c (rdOf t incs) s ev).1 (t + incs.sum) := by
+  have hhi : ∀ m, rdOf t incs m ≤ t + incs.sum := rdOf_le t incs
+  have hst : ∀ m, stampOf c (rdOf t incs m) ≤ t + incs.sum := fun m => Nat.le_trans (stampOf_le c _) (hhi m)
+  have h0 : Inv s (t + incs.sum) := inv_mono s t0 _ h.1 (by omega)
+  have hens : ∀ k, Inv (ensure s (rdOf t incs 0) k).1 (t + incs.sum) := fun k =>
+    inv_mono _ _ _ (inv_ensure s t0 (rdOf t incs 0) k h.1 (Nat.le_trans ht (rdOf_ge t incs 0))) (hhi 0)
+  cases ev with
+  | old e =>
+    cases e with
+    | create τ =>
+      simp only [stepR, createR]
+      have h1 := inv_sweepR (rdOf t incs) 0 s _ h0
+      have hc1 : Cons (sweepR (rdOf t incs) 0 s) := cons_of_sub _ _ (sub_sweepR _ 0 s) h.2
+      constructor
+      · constructor
+        · simp only [List.map_append, List.map_cons, List.map_nil]
+          rw [List.nodup_append]
+          refine ⟨h1.nodup, by simp, ?_⟩
+          intro a ha b hb
+          simp at hb; subst hb
+          obtain ⟨i, hi, rfl⟩ := List.mem_map.mp ha
+          exact Nat.ne_of_lt (h1.bound i hi)
+        · intro i hi
+          simp only [List.mem_append, List.mem_singleton] at hi
+          rcases hi with hi | rfl
+          · have := h1.bound i hi; simp only at this ⊢; omega
+          · simp
+        · intro i hi
+          simp only [List.mem_append, List.mem_singleton] at hi
+          rcases hi with hi | rfl
+          · exact h1.lastLe i hi
+          · exact hst _
+        · intro k τ' hk
+          have := h1.storedBound k τ' hk
+          simp only at this ⊢; omega
+      · intro i hi τ' hτ'
+        simp only [List.mem_append, List.mem_singleton] at hi
+        rcases hi with hi | rfl
+        · exact hc1 i hi τ' hτ'
+        · exact absurd (h1.storedBound _ τ' hτ') (Nat.lt_irrefl _)
+    | access k kind =>
+      simp only [stepR, accessR]
+      have he := hens k
+      have hce := cons_ensure s (rdOf t incs 0) k h.2
+      cases hen : ensure s (rdOf t incs 0) k with
+      | mk s1 b =>
+        rw [hen] at he hce
+        cases b with
+        | false => exact ⟨h0, h.2⟩
+        | true =>
+          simp only
+          have h2 := inv_sweepR (rdOf t incs) ((if hasId s k then 0 else 1) + 1) _ _
+            (inv_touch_le s1 _ (stampOf c (rdOf t incs (if hasId s k then 0 else 1))) k he (hst _))
+          have hc2 := cons_touch_sweepR (rdOf t incs) ((if hasId s k then 0 else 1) + 1)
+            (stampOf c (rdOf t incs (if hasId s k then 0 else 1))) k s1 hce
+          split
+          · exact ⟨h2, hc2⟩
+          · rename_i i hf
+            exact ⟨inv_applyKind _ _ i (findInst_mem _ _ _ hf).1 kind h2,
+              cons_applyKind _ _ i (findInst_mem _ _ _ hf).1 kind h2 hc2⟩
+    | keepAlive k =>
+      simp only [stepR, keepAliveR]
+      cases hr : c.keepAliveRestores with
+      | true =>
+        simp only [if_true]
+        have he := hens k
+        have hce := cons_ensure s (rdOf t incs 0) k h.2
+        cases hen : ensure s (rdOf t incs 0) k with
+        | mk s1 b =>
+          rw [hen] at he hce
+          cases b with
+          | false => exact ⟨h0, h.2⟩
+          | true =>
+            exact ⟨inv_sweepR _ _ _ _ (inv_touch_le s1 _ _ k he (hst _)), cons_touch_sweepR _ _ _ k s1 hce⟩
+      | false =>
+        simp only [Bool.false_eq_true, if_false]
+        cases hasId s k with
+        | false => exact ⟨h0, h.2⟩
+        | true => exact ⟨inv_sweepR _ _ _ _ (inv_touch_le s _ _ k h0 (hst _)), cons_touch_sweepR _ _ _ k s h.2⟩
+    | metrics => exact ⟨inv_sweepR _ 0 s _ h0, cons_of_sub _ _ (sub_sweepR _ 0 s) h.2⟩
+    | fullMetrics => exact ⟨inv_sweepR _ 0 s _ h0, cons_of_sub _ _ (sub_sweepR _ 0 s) h.2⟩
+  | stop k => exact ⟨inv_stop s _ k h0, cons_stop s k h.2⟩
+  | saveState => exact ⟨inv_save s _ h0, cons_save s _ h0 h.2⟩
+  | loadState =>
+    obtain ⟨a1, a2, _⟩ := loadKeys_fold (rdOf t incs) _ hhi (storedIds s) 0 s s.next s.stored rfl rfl
+      (fun kτ hm => mem_storedIds s kτ hm) h0 h.2
+    exact ⟨a1, a2⟩
+
+theorem inv2_runR (c : CfgR) (evs : List Req) : ∀ (s : State) (t0 : Nat), Inv2 s t0 → wellTimedR t0 evs = true →
+    Inv2 (runR c s evs) (endTimeR t0 evs) := by
+  induction evs with
+  | nil => intro s t0 h _; exact h
+  | cons e rest ih =>
+    intro s t0 h hw
+    obtain ⟨t, incs, ev⟩ := e
+    simp only [wellTimedR, Bool.and_eq_true, decide_eq_true_eq] at hw
+    exact ih _ _ (inv2_stepR c s t0 t incs ev h hw.1) hw.2
+
+/-! ### alive / never early -/
+
+/-- **`alive` for advancing clocks.**  An instance whose stored timestamp is ≥ `l` (`l` no later than the
+request's first read `t`) survives every request that ENDS before `l + τ` (`t + incs.sum < l + τ`) — whatever
+the increments between the reads — with the same timeout and a timestamp still ≥ `l`; exception: its own
+explicit stop.  Needs exact timestamps (a truncated timestamp may move the timer back). -/
+theorem alive_stepR (c : CfgR) (hx : c.stampExact = true) (s : State) (t0 k τ l t : Nat) (incs : List Nat) (ev : Ev2)
+    (hinv : Inv2 s t0) (h : Holds s k τ l) (hl : l ≤ t) (hn : t + incs.sum < l + τ) (hns : ev ≠ .stop k) :
+    Holds (stepR c (rdOf t incs) s ev).1 k τ l := by
+  have hrd : ∀ m, rdOf t incs m < l + τ := fun m => Nat.lt_of_le_of_lt (rdOf_le t incs m) hn
+  have hlo : ∀ m, l ≤ rdOf t incs m := fun m => Nat.le_trans hl (rdOf_ge t incs m)
+  have hst : ∀ m, l ≤ stampOf c (rdOf t incs m) := fun m => by rw [stampOf_exact c hx]; exact hlo m
+  have touchedH : ∀ (s1 : State) (j n m : Nat), Holds s1 k τ l →
+      Holds (sweepR (rdOf t incs) m (touch (stampOf c (rdOf t incs n)) j s1)) k τ l :=
+    fun s1 j n m hh => holds_sweepR _ m _ k τ l (holds_touch s1 k τ l (stampOf c (rdOf t incs n)) j hh (hst n)) hrd
+  cases ev with
+  | old e =>
+    cases e with
+    | create τ' =>
+      simp only [stepR, createR]
+      obtain ⟨i, hi, h1, h2, h3⟩ := holds_sweepR _ 0 s k τ l h hrd
+      exact ⟨i, List.mem_append_left _ hi, h1, h2, h3⟩
+    | access j kind =>
+      simp only [stepR, accessR]
+      have he := holds_ensure s k τ l (rdOf t incs 0) j h
+      cases hen : ensure s (rdOf t incs 0) j with
+      | mk s1 b =>
+        rw [hen] at he
+        cases b with
+        | false => exact h
+        | true =>
+          simp only
+          have h2 := touchedH s1 j (if hasId s j then 0 else 1) ((if hasId s j then 0 else 1) + 1) he
+          split
+          · exact h2
+          · exact holds_applyKind _ k τ l _ kind h2
+    | keepAlive j =>
+      simp only [stepR, keepAliveR]
+      cases hr : c.keepAliveRestores with
+      | true =>
+        simp only [if_true]
+        have he := holds_ensure s k τ l (rdOf t incs 0) j h
+        cases hen : ensure s (rdOf t incs 0) j with
+        | mk s1 b =>
+          rw [hen] at he
+          cases b with
+          | false => exact h
+          | true => exact touchedH s1 j _ _ he
+      | false =>
+        simp only [Bool.false_eq_true, if_false]
+        cases hasId s j with
+        | false => exact h
+        | true => exact touchedH s j _ _ h
+    | metrics => exact holds_sweepR _ 0 s k τ l h hrd
+    | fullMetrics => exact holds_sweepR _ 0 s k τ l h hrd
+  | stop j =>
+    obtain ⟨i, hi, h1, h2, h3⟩ := h
+    have hj : j ≠ k := fun e => hns (by rw [e])
+    refine ⟨i, ?_, h1, h2, h3⟩
+    simp only [stepR, stopInst, List.mem_filter]
+    exact ⟨hi, by simp [h1]; exact fun e => hj e.symm⟩
+  | saveState =>
+    obtain ⟨i, hi, h1, h2, h3⟩ := h
+    exact ⟨i, hi, h1, h2, h3⟩
+  | loadState =>
+    simp only [stepR]
+    refine holds_loadKeys (rdOf t incs) k τ l hlo (storedIds s) 0 s ?_ h
+    intro kτ hm e
+    obtain ⟨i, hi, h1, h2, _⟩ := h
+    have := hinv.2 i hi kτ.2 (by rw [h1, ← e]; exact (mem_storedIds s kτ hm).2)
+    omega
+
+theorem alive_not_destroyedR (c : CfgR) (hx : c.stampExact = true) (s : State) (t0 k τ l t : Nat) (incs : List Nat)
+    (ev : Ev2) (hinv : Inv2 s t0) (ht : t0 ≤ t) (h : Holds s k τ l) (hl : l ≤ t) (hn : t + incs.sum < l + τ) :
+    (stepR c (rdOf t incs) s ev).1.destroyed.count k = s.destroyed.count k := by
+  have hrd : ∀ m, rdOf t incs m < l + τ := fun m => Nat.lt_of_le_of_lt (rdOf_le t incs m) hn
+  have hlo : ∀ m, l ≤ rdOf t incs m := fun m => Nat.le_trans hl (rdOf_ge t incs m)
+  have hst : ∀ m, l ≤ stampOf c (rdOf t incs m) := fun m => by rw [stampOf_exact c hx]; exact hlo m
+  have hhi : ∀ m, rdOf t incs m ≤ t + incs.sum := rdOf_le t incs
+  have hsl : ∀ m, stampOf c (rdOf t incs m) ≤ t + incs.sum := fun m => Nat.le_trans (stampOf_le c _) (hhi m)
+  have h0 : Inv s (t + incs.sum) := inv_mono s t0 _ hinv.1 (by omega)
+  have touched : ∀ (s1 : State) (j n : Nat), Inv s1 (t + incs.sum) → Holds s1 k τ l → s1.destroyed = s.destroyed →
+      (sweepR (rdOf t incs) (n + 1) (touch (stampOf c (rdOf t incs n)) j s1)).destroyed.count k = s.destroyed.count k := by
+    intro s1 j n hi1 hh1 hd1
+    rw [sweepR_keeps_count _ _ _ _ (inv_touch_le s1 _ _ j hi1 (hsl n)) k τ l (holds_touch s1 k τ l _ j hh1 (hst n)) hrd]
+    simp only [touch]; rw [hd1]
+  cases ev with
+  | old e =>
+    cases e with
+    | create τ' =>
+      simp only [stepR, createR]
+      exact sweepR_keeps_count _ 0 s _ h0 k τ l h hrd
+    | metrics => exact sweepR_keeps_count _ 0 s _ h0 k τ l h hrd
+    | fullMetrics => exact sweepR_keeps_count _ 0 s _ h0 k τ l h hrd
+    | access j kind =>
+      simp only [stepR, accessR]
+      have he := holds_ensure s k τ l (rdOf t incs 0) j h
+      have hie := inv_mono _ _ _ (inv_ensure s t0 (rdOf t incs 0) j hinv.1 (Nat.le_trans ht (rdOf_ge t incs 0))) (hhi 0)
+      have hd1 := ensure_destroyed s (rdOf t incs 0) j
+      cases hen : ensure s (rdOf t incs 0) j with
+      | mk s1 b =>
+        rw [hen] at he hie hd1
+        cases b with
+        | false => rfl
+        | true =>
+          simp only at hd1 ⊢
+          have h2 := touched s1 j (if hasId s j then 0 else 1) hie he hd1
+          split
+          · exact h2
+          · rw [(applyKind_core _ _ kind).2.1]; exact h2
+    | keepAlive j =>
+      simp only [stepR, keepAliveR]
+      cases hr : c.keepAliveRestores with
+      | true =>
+        simp only [if_true]
+        have he := holds_ensure s k τ l (rdOf t incs 0) j h
+        have hie := inv_mono _ _ _ (inv_ensure s t0 (rdOf t incs 0) j hinv.1 (Nat.le_trans ht (rdOf_ge t incs 0))) (hhi 0)
+        have hd1 := ensure_destroyed s (rdOf t incs 0) j
+        cases hen : ensure s (rdOf t incs 0) j with
+        | mk s1 b =>
+          rw [hen] at he hie hd1
+          cases b with
+          | false => rfl
+          | true => exact touched s1 j _ hie he hd1
+      | false =>
+        simp only [Bool.false_eq_true, if_false]
+        cases hasId s j with
+        | false => rfl
+        | true => exact touched s j _ h0 h rfl
+  | stop j => rfl
+  | saveState => rfl
+  | loadState =>
+    simp only [stepR]
+    obtain ⟨_, _, a3⟩ := loadKeys_fold (rdOf t incs) _ hhi (storedIds s) 0 s s.next s.stored rfl rfl
+      (fun kτ hm => mem_storedIds s kτ hm) h0 hinv.2
+    rw [a3]
+
+/-- **`C17_alive` for advancing clocks**, over whole request sequences: all requests end before `l + τ`. -/
+theorem C17R_alive (c : CfgR) (hx : c.stampExact = true) (evs : List Req) : ∀ (s : State) (t0 k τ l : Nat),
+    Inv2 s t0 → Holds s k τ l → l ≤ t0 → wellTimedR t0 evs = true → endTimeR t0 evs < l + τ →
+    (∀ r ∈ evs, r.2.2 ≠ .stop k) → Holds (runR c s evs) k τ l := by
+  induction evs with
+  | nil => intro s t0 k τ l _ h _ _ _ _; exact h
+  | cons e rest ih =>
+    intro s t0 k τ l hinv h hl hw hend hns
+    obtain ⟨t, incs, ev⟩ := e
+    simp only [wellTimedR, Bool.and_eq_true, decide_eq_true_eq] at hw
+    simp only [endTimeR] at hend
+    have hmono : ∀ (r : List Req) (a : Nat), wellTimedR a r = true → a ≤ endTimeR a r := by
+      intro r
+      induction r with
+      | nil => intro a _; exact Nat.le_refl _
+      | cons x xs ihx =>
+        intro a hwx
+        obtain ⟨t', incs', ev'⟩ := x
+        simp only [wellTimedR, Bool.and_eq_true, decide_eq_true_eq] at hwx
+        simp only [endTimeR]
+        have := ihx _ hwx.2
+        omega
+    have hle := hmono rest _ hw.2
+    exact ih _ _ k τ l (inv2_stepR c s t0 t incs ev hinv hw.1)
+      (alive_stepR c hx s t0 k τ l t incs ev hinv h (by omega) (by omega) (hns (t, incs, ev) (by simp)))
+      (by omega) hw.2 hend (fun r hr => hns r (by simp [hr]))
+
+/-- **`C17_never_early` for advancing clocks**: an instance present before a request and absent after it
+(not by its own stop) had its stored timestamp + timeout reached by the END of the request. -/
+theorem C17R_never_early (c : CfgR) (hx : c.stampExact = true) (s : State) (t0 t : Nat) (incs : List Nat) (ev : Ev2)
+    (hinv : Inv2 s t0) (ht : t0 ≤ t) (i : Inst) (hi : i ∈ s.insts) (hns : ev ≠ .stop i.id)
+    (hgone : ∀ j ∈ (stepR c (rdOf t incs) s ev).1.insts, j.id ≠ i.id) : i.last + i.timeout ≤ t + incs.sum := by
+  rcases Nat.lt_or_ge (t + incs.sum) (i.last + i.timeout) with hlt | hge
+  · exfalso
+    have hl : i.last ≤ t := Nat.le_trans (hinv.1.lastLe i hi) ht
+    obtain ⟨j, hj, hid, _, _⟩ := alive_stepR c hx s t0 i.id i.timeout i.last t incs ev hinv
+      ⟨i, hi, rfl, rfl, Nat.le_refl _⟩ hl hlt hns
+    exact hgone j hj hid
+  · exact hge
+
+/-! ### gone after the next trigger -/
+
+/-- **`C17_gone_after_trigger` for advancing clocks**: the timeout had elapsed when the request STARTED
+(`last + timeout ≤ t`, the first read) — then whatever the later reads are, the instance is removed at its own
+key of the loop and released exactly once.  Holds for every configuration. -/
+theorem C17R_gone_after_trigger (c : CfgR) (s : State) (t0 t : Nat) (incs : List Nat) (ev : Ev2) (hinv : Inv s t0)
+    (ht : t0 ≤ t) (i : Inst) (hi : i ∈ s.insts) (hexp : i.last + i.timeout ≤ t) (htr : isTriggerR c s i.id ev = true) :
+    (∀ j ∈ (stepR c (rdOf t incs) s ev).1.insts, j.id ≠ i.id) ∧
+    (stepR c (rdOf t incs) s ev).1.destroyed.count i.id = s.destroyed.count i.id + 1 := by
+  have hrd : ∀ m, i.last + i.timeout ≤ rdOf t incs m := fun m => Nat.le_trans hexp (rdOf_ge t incs m)
+  have hhi : ∀ m, rdOf t incs m ≤ t + incs.sum := rdOf_le t incs
+  have hsl : ∀ m, stampOf c (rdOf t incs m) ≤ t + incs.sum := fun m => Nat.le_trans (stampOf_le c _) (hhi m)
+  have h0 : Inv s (t + incs.sum) := inv_mono s t0 _ hinv (by omega)
+  have touched : ∀ (s1 : State) (j n : Nat), Inv s1 (t + incs.sum) → i ∈ s1.insts → i.id ≠ j → s1.destroyed = s.destroyed →
+      (∀ x ∈ (sweepR (rdOf t incs) (n + 1) (touch (stampOf c (rdOf t incs n)) j s1)).insts, x.id ≠ i.id) ∧
+      (sweepR (rdOf t incs) (n + 1) (touch (stampOf c (rdOf t incs n)) j s1)).destroyed.count i.id = s.destroyed.count i.id + 1 := by
+    intro s1 j n hi1 him hne hd1
+    obtain ⟨a, b⟩ := sweepR_gone (rdOf t incs) (n + 1) _ _ (inv_touch_le s1 _ _ j hi1 (hsl n)) i
+      (mem_touch_other s1 _ j i him hne) hrd
+    exact ⟨a, by rw [b]; simp only [touch]; rw [hd1]⟩
+  cases ev with
+  | old e =>
+    cases e with
+    | create τ =>
+      obtain ⟨a, b⟩ := sweepR_gone (rdOf t incs) 0 s _ h0 i hi hrd
+      simp only [stepR, createR]
+      refine ⟨?_, b⟩
+      intro j hj
+      simp only [List.mem_append, List.mem_singleton] at hj
+      rcases hj with hj | rfl
+      · exact a j hj
+      · have := hinv.bound i hi
+        rw [(sweepR_ghost (rdOf t incs) 0 s).2.1]; simp only; omega
+    | metrics => exact sweepR_gone (rdOf t incs) 0 s _ h0 i hi hrd
+    | fullMetrics => exact sweepR_gone (rdOf t incs) 0 s _ h0 i hi hrd
+    | access j kind =>
+      simp only [isTriggerR, isTrigger2, isTrigger, Bool.and_eq_true, bne_iff_ne, ne_eq] at htr
+      have hne : i.id ≠ j := fun e => htr.1 e.symm
+      have hok := ensure_ok s (rdOf t incs 0) j htr.2
+      have hie := inv_mono _ _ _ (inv_ensure s t0 (rdOf t incs 0) j hinv (Nat.le_trans ht (rdOf_ge t incs 0))) (hhi 0)
+      have hi1 := mem_ensure s (rdOf t incs 0) j i hi
+      have hd1 := ensure_destroyed s (rdOf t incs 0) j
+      simp only [stepR, accessR]
+      cases hen : ensure s (rdOf t incs 0) j with
+      | mk s1 b =>
+        rw [hen] at hok hie hi1 hd1
+        simp only at hok hie hi1 hd1
+        subst hok
+        simp only
+        obtain ⟨a, b⟩ := touched s1 j (if hasId s j then 0 else 1) hie hi1 hne hd1
+        split
+        · exact ⟨a, b⟩
+        · obtain ⟨c1, c2, _⟩ := applyKind_core (sweepR (rdOf t incs) ((if hasId s j then 0 else 1) + 1)
+            (touch (stampOf c (rdOf t incs (if hasId s j then 0 else 1))) j s1)) _ kind
+          exact ⟨absent_of_core _ _ _ c1 a, by rw [c2]; exact b⟩
+    | keepAlive j =>
+      simp only [isTriggerR, isTrigger2, isTrigger, CfgR.base, Bool.and_eq_true, bne_iff_ne, ne_eq] at htr
+      have hne : i.id ≠ j := fun e => htr.1 e.symm
+      simp only [stepR, keepAliveR]
+      cases hr : c.keepAliveRestores with
+      | true =>
+        simp only [hr, Bool.true_and] at htr
+        simp only [if_true]
+        have hok := ensure_ok s (rdOf t incs 0) j htr.2
+        have hie := inv_mono _ _ _ (inv_ensure s t0 (rdOf t incs 0) j hinv (Nat.le_trans ht (rdOf_ge t incs 0))) (hhi 0)
+        have hi1 := mem_ensure s (rdOf t incs 0) j i hi
+        have hd1 := ensure_destroyed s (rdOf t incs 0) j
+        cases hen : ensure s (rdOf t incs 0) j with
+        | mk s1 b =>
+          rw [hen] at hok hie hi1 hd1
+          simp only at hok hie hi1 hd1
+          subst hok
+          exact touched s1 j _ hie hi1 hne hd1
+      | false =>
+        simp only [hr, Bool.false_and, Bool.or_false] at htr
+        simp only [Bool.false_eq_true, if_false, htr.2]
+        exact touched s j _ h0 hi hne rfl
+  | stop j => simp [isTriggerR, isTrigger2] at htr
+  | saveState => simp [isTriggerR, isTrigger2] at htr
+  | loadState => simp [isTriggerR, isTrigger2] at htr
+
+/-! ### access restarts the timer / transparent restore — the stored timestamp is a read of THIS request -/
+
+theorem touched_survivesR (c : CfgR) (hx : c.stampExact = true) (rd : Rd) (n h : Nat) (s : State) (k : Nat) (hinv : Inv s h)
+    (hv : rd n ≤ h) (i : Inst) (hi : i ∈ s.insts) (hk : i.id = k) (hrd : ∀ m, rd m < rd n + i.timeout) :
+    findInst (sweepR rd (n + 1) (touch (stampOf c (rd n)) k s)) k = some { i with last := rd n } := by
+  rw [stampOf_exact c hx]
+  have hmem0 : ({ i with last := rd n } : Inst) ∈ (touch (rd n) k s).insts :=
+    List.mem_map.mpr ⟨i, hi, by simp [touchInst, hk]⟩
+  have hmem := mem_sweepR_of rd (n + 1) _ _ hmem0 (by simpa using hrd)
+  have hinv2 := inv_sweepR rd (n + 1) _ h (inv_touch_le s h (rd n) k hinv hv)
+  cases hf : findInst (sweepR rd (n + 1) (touch (rd n) k s)) k with
+  | none => exact absurd hk (by have := findInst_none _ _ hf _ hmem; simpa using this)
+  | some j =>
+    have hj := findInst_mem _ _ _ hf
+    rw [eq_of_nodup_id _ hinv2.nodup j _ hj.1 hmem (by simp [hj.2, hk])]
+
+/-- **`access_resets` for advancing clocks**: a request to a PRESENT instance that lasts less than the
+instance's timeout (`incs.sum < timeout`) succeeds and leaves it with the stored timestamp = the request's
+FIRST read `t`. -/
+theorem C17R_access_resets (c : CfgR) (hx : c.stampExact = true) (s : State) (t0 t : Nat) (incs : List Nat)
+    (hinv : Inv s t0) (ht : t0 ≤ t) (i : Inst) (hi : i ∈ s.insts) (hτ : incs.sum < i.timeout) (kind : Kind) :
+    (∃ j ∈ (accessR c (rdOf t incs) s i.id kind).1.insts, j.id = i.id ∧ j.last = t ∧ j.timeout = i.timeout) ∧
+    ((kind ≠ .step ∨ i.sess = true) → (accessR c (rdOf t incs) s i.id kind).2.1 = true) := by
+  have hp : hasId s i.id = true := (hasId_iff s i.id).mpr ⟨i, hi, rfl⟩
+  have h0 : Inv s (t + incs.sum) := inv_mono s t0 _ hinv (by omega)
+  have hf := touched_survivesR c hx (rdOf t incs) 0 _ s i.id h0 (rdOf_le t incs 0) i hi rfl
+    (fun m => by have := rdOf_le t incs m; rw [rdOf_zero]; omega)
+  rw [rdOf_zero] at hf
+  have hj := (findInst_mem _ _ _ hf).1
+  simp only [accessR, ensure_present s _ i.id hp, hp, if_true, rdOf_zero, hf]
+  constructor
+  · have : (i.id, t, i.timeout) ∈ (applyKind (sweepR (rdOf t incs) (0 + 1) (touch (stampOf c t) i.id s)) { i with last := t } kind).1.insts.map core := by
+      rw [(applyKind_core _ _ kind).1]
+      exact (mem_core _ _ _ _).mpr ⟨_, hj, rfl, rfl, rfl⟩
+    obtain ⟨j, hj', h1, h2, h3⟩ := (mem_core _ _ _ _).mp this
+    exact ⟨j, hj', h1, h2, h3⟩
+  · intro hk
+    cases kind with
+    | begin => rfl
+    | results => rfl
+    | endS => rfl
+    | step =>
+      rcases hk with hk | hk
+      · exact absurd rfl hk
+      · simp [applyKind, hk]
+
+/-- **`C17_restore` for advancing clocks**: an absent instance with externalised state is restored by the
+next instance-scoped request, which succeeds if it lasts less than the stored timeout; the stored timestamp is
+the request's SECOND read (`_update_instance_timestamp`, after the adapter's read) — at or after its first. -/
+theorem C17R_restore (c : CfgR) (hx : c.stampExact = true) (s : State) (t0 t k τ : Nat) (incs : List Nat) (kind : Kind)
+    (hinv : Inv s t0) (ht : t0 ≤ t) (habs : hasId s k = false) (hst : lookupStored s.stored k = some τ)
+    (hτ : incs.sum < τ) :
+    (accessR c (rdOf t incs) s k kind).2.1 = true ∧
+    ∃ j ∈ (accessR c (rdOf t incs) s k kind).1.insts, j.id = k ∧ j.last = rdOf t incs 1 ∧ t ≤ j.last ∧ j.timeout = τ := by
+  have he := ensure_restores s (rdOf t incs 0) k τ habs hst
+  have hinv1 := inv_mono _ _ _ (inv_ensure s t0 (rdOf t incs 0) k hinv (Nat.le_trans ht (rdOf_ge t incs 0))) (rdOf_le t incs 0)
+  rw [he] at hinv1
+  simp only at hinv1
+  let n : Inst := { id := k, last := rdOf t incs 0, timeout := τ, sess := true }
+  have hn : n ∈ (s.insts ++ [n]) := List.mem_append_right _ (by simp)
+  have hf := touched_survivesR c hx (rdOf t incs) 1 _ _ k hinv1 (rdOf_le t incs 1) n hn rfl
+    (fun m => by have := rdOf_le t incs m; have := rdOf_ge t incs 1; show rdOf t incs m < rdOf t incs 1 + τ; omega)
+  have hj := (findInst_mem _ _ _ hf).1
+  simp only [accessR, he, habs, Bool.false_eq_true, if_false, hf]
+  constructor
+  · cases kind <;> simp [applyKind, n]
+  · have : (k, rdOf t incs 1, τ) ∈ (applyKind (sweepR (rdOf t incs) (1 + 1) (touch (stampOf c (rdOf t incs 1)) k
+        { s with insts := s.insts ++ [n], restored := s.restored ++ [k] })) { n with last := rdOf t incs 1 } kind).1.insts.map core := by
+      rw [(applyKind_core _ _ kind).1]
+      exact (mem_core _ _ _ _).mpr ⟨_, hj, rfl, rfl, rfl⟩
+    obtain ⟨j, hj', h1, h2, h3⟩ := (mem_core _ _ _ _).mp this
+    exact ⟨j, hj', h1, h2, by rw [h2]; exact rdOf_ge t incs 1, h3⟩
+
+/-- a request to an absent, not externalised id reads no clock, is refused and changes nothing -/
+theorem C17R_refused (c : CfgR) (rd : Rd) (s : State) (k : Nat) (kind : Kind) (habs : hasId s k = false)
+    (hst : lookupStored s.stored k = none) :
+    accessR c rd s k kind = (s, false, 0) ∧ keepAliveR c rd s k = (s, false, 0) := by
+  have he : ensure s (rd 0) k = (s, false) := by simp [ensure, habs, hst]
+  constructor
+  · simp [accessR, he]
+  · unfold keepAliveR
+    cases c.keepAliveRestores <;> simp [he, habs]
+
+/-- creation: the new instance's stored timestamp is the read AFTER the sweep's reads — at or after the
+request's first read -/
+theorem C17R_create_stamp (c : CfgR) (hx : c.stampExact = true) (s : State) (t : Nat) (incs : List Nat) (τ : Nat) :
+    ∃ j ∈ (createR c (rdOf t incs) s τ).1.insts, j.id = s.next ∧ j.timeout = τ ∧ j.last = rdOf t incs s.insts.length ∧ t ≤ j.last := by
+  refine ⟨{ id := (sweepR (rdOf t incs) 0 s).next, last := stampOf c (rdOf t incs s.insts.length), timeout := τ, sess := false }, ?_, ?_, rfl, ?_, ?_⟩
+  · simp [createR]
+  · exact (sweepR_ghost _ 0 s).2.1
+  · exact stampOf_exact c hx _
+  · rw [stampOf_exact c hx]; exact rdOf_ge t incs _
+
+/-! ### the statement: never removed before (arrival of the last access) + timeout -/
+
+/-- request `ev` addresses instance `k` (for a creation: `k` is the id it hands out) -/
+def touchesId (s : State) (k : Nat) : Ev2 → Bool
+  | .old (.access j _) => j == k
+  | .old (.keepAlive j) => j == k
+  | .old (.create _) => k == s.next
+  | _ => false
+
+/-- after `touch v k`, the sweep loop leaves every instance of id `k` with the timestamp `v` -/
+theorem touched_last (rd : Rd) (n v k : Nat) (s1 : State) :
+    ∀ j ∈ (sweepR rd n (touch v k s1)).insts, j.id = k → j.last = v := by
+  intro j hj hid
+  have hj' : j ∈ (touch v k s1).insts :=
+    sweepKeys_pres (fun s' => ∀ x ∈ s'.insts, x ∈ (touch v k s1).insts) rd
+      (fun n k' s' hs x hx' => hs x ((mem_sweepOne _ _ _ _).mp hx').1) _ n _ (fun x hx' => hx') j hj
+  simp only [touch] at hj'
+  obtain ⟨i', _, rfl⟩ := List.mem_map.mp hj'
+  rw [touchInst_id] at hid
+  exact touchInst_self v k i' hid
+
+theorem applyKind_last (s : State) (i : Inst) (kind : Kind) (j : Inst) (hj : j ∈ (applyKind s i kind).1.insts) :
+    ∃ j' ∈ s.insts, j'.id = j.id ∧ j'.last = j.last := by
+  have : (j.id, j.last, j.timeout) ∈ s.insts.map core := by
+    rw [← (applyKind_core s i kind).1]
+    exact (mem_core _ _ _ _).mpr ⟨j, hj, rfl, rfl, rfl⟩
+  obtain ⟨j', hj', h1, h2, _⟩ := (mem_core _ _ _ _).mp this
+  exact ⟨j', hj', h1, h2⟩
+
+/-- **The stored "last access" is a clock read of the request itself**: after a SUCCESSFUL request that
+addresses instance `k`, the stored timestamp of `k` is at or after the request's first read `t` (its arrival). -/
+theorem stamp_ge_arrival (c : CfgR) (hx : c.stampExact = true) (s : State) (t0 t : Nat) (incs : List Nat) (ev : Ev2)
+    (k : Nat) (hinv : Inv s t0) (htc : touchesId s k ev = true) (hok : (stepR c (rdOf t incs) s ev).2.1 = true) :
+    ∀ j ∈ (stepR c (rdOf t incs) s ev).1.insts, j.id = k → t ≤ j.last := by
+  have hst : ∀ m, t ≤ stampOf c (rdOf t incs m) := fun m => by rw [stampOf_exact c hx]; exact rdOf_ge t incs m
+  intro j hj hid
+  cases ev with
+  | old e =>
+    cases e with
+    | create τ =>
+      simp only [touchesId, beq_iff_eq] at htc
+      simp only [stepR, createR, List.mem_append, List.mem_singleton] at hj
+      rcases hj with hj | rfl
+      · exfalso
+        obtain ⟨i, hi, e1, _⟩ := (sub_sweepR (rdOf t incs) 0 s).2 j hj
+        have := hinv.bound i hi
+        omega
+      · exact hst _
+    | access k' kind =>
+      simp only [touchesId, beq_iff_eq] at htc
+      subst htc
+      simp only [stepR, accessR] at hj hok
+      cases hen : ensure s (rdOf t incs 0) k' with
+      | mk s1 b =>
+        rw [hen] at hj hok
+        cases b with
+        | false => simp at hok
+        | true =>
+          simp only at hj hok
+          split at hj
+          · simp_all
+          · rename_i i hf
+            obtain ⟨j', hj', h1, h2⟩ := applyKind_last _ i kind j hj
+            rw [← h2, touched_last _ _ _ _ s1 j' hj' (by omega)]; exact hst _
+    | keepAlive k' =>
+      simp only [touchesId, beq_iff_eq] at htc
+      subst htc
+      simp only [stepR, keepAliveR] at hj hok
+      cases hr : c.keepAliveRestores with
+      | true =>
+        simp only [hr, if_true] at hj hok
+        cases hen : ensure s (rdOf t incs 0) k' with
+        | mk s1 b =>
+          rw [hen] at hj hok
+          cases b with
+          | false => simp at hok
+          | true => simp only at hj; rw [touched_last _ _ _ _ s1 j hj hid]; exact hst _
+      | false =>
+        simp only [hr, Bool.false_eq_true, if_false] at hj hok
+        cases hh : hasId s k' with
+        | false => rw [hh] at hok; simp at hok
+        | true => rw [hh] at hj; simp only at hj; rw [touched_last _ _ _ _ s j hj hid]; exact hst _
+    | metrics => simp [touchesId] at htc
+    | fullMetrics => simp [touchesId] at htc
+  | stop _ => simp [touchesId] at htc
+  | saveState => simp [touchesId] at htc
+  | loadState => simp [touchesId] at htc
+
+/-- **The lifetime statement with a clock that advances inside requests** ("never removed before last access +
+timeout", last access = ARRIVAL of the request).  After every well-timed history `h1`, let a successful request
+`(t, incs, ev)` address instance `k` (access, keep-alive, or the creation that hands out `k`) and leave it
+present with timeout `τ`.  Then after ANY further requests `h2` (each with its own intra-request increments)
+that all end before `t + τ` and do not stop `k` explicitly, `k` is still present with timeout `τ`. -/
+def C17R_arrival (c : CfgR) : Prop :=
+  ∀ (h1 : List Req), wellTimedR 0 h1 = true → ∀ (t : Nat) (incs : List Nat) (ev : Ev2), endTimeR 0 h1 ≤ t →
+    ∀ (k τ : Nat), touchesId (runR c State.init h1) k ev = true →
+      (stepR c (rdOf t incs) (runR c State.init h1) ev).2.1 = true →
+      (∃ i ∈ (stepR c (rdOf t incs) (runR c State.init h1) ev).1.insts, i.id = k ∧ i.timeout = τ) →
+      ∀ (h2 : List Req), wellTimedR (t + incs.sum) h2 = true → endTimeR (t + incs.sum) h2 < t + τ →
+        (∀ r ∈ h2, r.2.2 ≠ .stop k) →
+        ∃ j ∈ (runR c (stepR c (rdOf t incs) (runR c State.init h1) ev).1 h2).insts, j.id = k ∧ j.timeout = τ
+
+theorem C17R_arrival_of_exact (c : CfgR) (hx : c.stampExact = true) : C17R_arrival c := by
+  intro h1 hw1 t incs ev hend k τ htc hok hpres h2 hw2 hend2 hns
+  have hinv := inv2_runR c h1 State.init 0 inv2_init hw1
+  have hinv' := inv2_stepR c _ _ t incs ev hinv hend
+  obtain ⟨i, hi, hid, hτ⟩ := hpres
+  have hge := stamp_ge_arrival c hx _ _ t incs ev k hinv.1 htc hok i hi hid
+  obtain ⟨j, hj, a, b, _⟩ := C17R_alive c hx h2 _ (t + incs.sum) k τ t hinv' ⟨i, hi, hid, hτ, hge⟩ (by omega) hw2 hend2 hns
+  exact ⟨j, hj, a, b⟩
+
+/-- Negation witness `timestamp-before-request`: when the stored timestamp is the clock reading truncated to
+whole seconds — EARLIER than every read of the request — an instance created at 1.5 s with a timeout of 1 s
+is removed by a metrics query at 2.0 s, half a second before arrival + timeout. -/
+theorem C17R_witness_trunc (c : CfgR) (hc : c.stampExact = false) : ¬ C17R_arrival c := by
+  intro h
+  have := h [] (by decide) 1500000 [] (.old (.create 1000000)) (by decide) 0 1000000
+  cases c with
+  | mk ka sx =>
+    simp only at hc; subst hc
+    cases ka <;> exact absurd (this (by decide) (by decide) (by decide) [(2000000, [], .old .metrics)] (by decide) (by decide) (by decide)) (by decide)
+
+/-- the step-wise clauses for reachable states and requests with advancing clocks -/
+def C17R_core (c : CfgR) : Prop :=
+  ∀ (evs : List Req), wellTimedR 0 evs = true →
+    ∀ (t : Nat) (incs : List Nat), endTimeR 0 evs ≤ t → ∀ (ev : Ev2),
+      let s := runR c State.init evs
+      let s' := (stepR c (rdOf t incs) s ev).1
+      -- (1) the request ENDS before last + timeout: still there, same timeout, timer not moved back, not released
+      (∀ i ∈ s.insts, t + incs.sum < i.last + i.timeout → ev ≠ .stop i.id →
+        (∃ j ∈ s'.insts, j.id = i.id ∧ j.timeout = i.timeout ∧ i.last ≤ j.last) ∧
+        s'.destroyed.count i.id = s.destroyed.count i.id) ∧
+      -- (2) removed (not stopped) ⇒ last + timeout reached by the end of the request
+      (∀ i ∈ s.insts, ev ≠ .stop i.id → (∀ j ∈ s'.insts, j.id ≠ i.id) → i.last + i.timeout ≤ t + incs.sum) ∧
+      -- (3) a request shorter than the timeout to a present instance succeeds; stored timestamp = its first read
+      (∀ i ∈ s.insts, incs.sum < i.timeout → ∀ kind,
+        (∃ j ∈ (accessR c (rdOf t incs) s i.id kind).1.insts, j.id = i.id ∧ j.last = t ∧ j.timeout = i.timeout) ∧
+        ((kind ≠ .step ∨ i.sess = true) → (accessR c (rdOf t incs) s i.id kind).2.1 = true)) ∧
+      -- (4) timeout elapsed when the request starts: gone after the trigger, released exactly once
+      (∀ i ∈ s.insts, i.last + i.timeout ≤ t → isTriggerR c s i.id ev = true →
+        (∀ j ∈ s'.insts, j.id ≠ i.id) ∧ s'.destroyed.count i.id = s.destroyed.count i.id + 1) ∧
+      -- (5) gone and not externalised: refused, no clock read, nothing changes
+      (∀ k kind, hasId s k = false → lookupStored s.stored k = none →
+        accessR c (rdOf t incs) s k kind = (s, false, 0) ∧ keepAliveR c (rdOf t incs) s k = (s, false, 0)) ∧
+      -- (6) externalised: restored by a request shorter than the stored timeout; timestamp = its second read ≥ t
+      (∀ k τ kind, hasId s k = false → lookupStored s.stored k = some τ → incs.sum < τ →
+        (accessR c (rdOf t incs) s k kind).2.1 = true ∧
+        ∃ j ∈ (accessR c (rdOf t incs) s k kind).1.insts, j.id = k ∧ j.last = rdOf t incs 1 ∧ t ≤ j.last ∧ j.timeout = τ)
+
+def C17R_full (c : CfgR) : Prop := C17R_core c ∧ C17R_arrival c
+
+theorem C17R_full_of_good (c : CfgR) (hx : c.stampExact = true) : C17R_full c := by
+  refine ⟨?_, C17R_arrival_of_exact c hx⟩
+  intro evs hw t incs hend ev
+  have hinv := inv2_runR c evs State.init 0 inv2_init hw
+  refine ⟨?_, ?_, ?_, ?_, ?_, ?_⟩
+  · intro i hi hlt hns
+    have hl : i.last ≤ t := Nat.le_trans (hinv.1.lastLe i hi) hend
+    have hh : Holds (runR c State.init evs) i.id i.timeout i.last := ⟨i, hi, rfl, rfl, Nat.le_refl _⟩
+    exact ⟨alive_stepR c hx _ _ i.id i.timeout i.last t incs ev hinv hh hl hlt hns,
+      alive_not_destroyedR c hx _ _ i.id i.timeout i.last t incs ev hinv hend hh hl hlt⟩
+  · intro i hi hns hg
+    exact C17R_never_early c hx _ _ t incs ev hinv hend i hi hns hg
+  · intro i hi hτ kind
+    exact C17R_access_resets c hx _ _ t incs hinv.1 hend i hi hτ kind
+  · intro i hi hexp htr
+    exact C17R_gone_after_trigger c _ _ t incs ev hinv.1 hend i hi hexp htr
+  · intro k kind habs hst
+    exact C17R_refused c _ _ k kind habs hst
+  · intro k τ kind habs hst hτ
+    exact C17R_restore c hx _ _ t k τ incs kind hinv.1 hend habs hst hτ
+
+theorem C17R_witness_trunc_full (c : CfgR) (hc : c.stampExact = false) : ¬ C17R_full c :=
+  fun h => C17R_witness_trunc c hc h.2
+
+-- non-vacuity: the clock crosses the expiry boundary BETWEEN the timestamp write and the sweep reads
+-- (instance 0: timeout 1000, last 0; request at 998 with increments 1,1,1: own access at 998 keeps it;
+-- a request to instance 1 at 998 with the same increments sweeps instance 0 at the read 1000 of its key)
+example : (stepR ⟨true, true⟩ (rdOf 999 [1, 1, 1]) (runR ⟨true, true⟩ State.init [(0, [], .old (.create 1000)), (0, [], .old (.create 5000))])
+    (.old (.access 1 .results))).1.insts.map (fun i => (i.id, i.last)) = [(1, 999)] := by decide
+example : (stepR ⟨true, true⟩ (rdOf 998 [1, 1, 1]) (runR ⟨true, true⟩ State.init [(0, [], .old (.create 1000)), (0, [], .old (.create 5000))])
+    (.old (.access 1 .results))).1.insts.map (fun i => (i.id, i.last)) = [(0, 0), (1, 998)] := by decide
+example : (stepR ⟨true, true⟩ (rdOf 999 [1, 1, 1]) (runR ⟨true, true⟩ State.init [(0, [], .old (.create 1000)), (0, [], .old (.create 5000))])
+    (.old (.access 0 .results))).1.insts.map (fun i => (i.id, i.last)) = [(0, 999), (1, 0)] := by decide
+
+#print axioms inv2_runR
+#print axioms C17R_alive
+#print axioms C17R_never_early
+#print axioms C17R_gone_after_trigger
+#print axioms C17R_access_resets
+#print axioms C17R_restore
+#print axioms C17R_refused
+#print axioms stamp_ge_arrival
+#print axioms C17R_arrival_of_exact
+#print axioms C17R_witness_trunc
+#print axioms C17R_full_of_good
+#print axioms C17R_witness_trunc_full
+
 end Bptk.C17
